@@ -2,6 +2,7 @@ package props
 
 import (
 	"fmt"
+	"net/http"
 	"os"
 	"path/filepath"
 	"strings"
@@ -391,6 +392,70 @@ func init() {
 			}
 			st.NOutcomes = int(st.Execs)
 		}
+		// what the origin says about the entity is the same for every key: one strong ETag and Last-Modified, one body
+		// length (a build number as ETag, nginx's mtime-size): nothing derived from the response may stand in for the key
+		if c.Want("pairs-same-validators") {
+			st := c.Stat("pairs-same-validators", "enumeration")
+			st.Bounds = "every ordered pair of 8 keys, the origin answers every key with the same strong ETag, the same Last-Modified and a compressible 2000-byte body, sequence A B A B A, limit 2; clients accept nothing / gzip, br (decoded by the harness)"
+			e := getEnv(cfg, "basic")
+			var idx int64
+			keys := []c06Key{U[0], U[2], U[3], U[4], U[8], U[10], U[16], U[24]}
+			for _, ae := range []string{"", "gzip, br"} {
+				for i, a := range keys {
+					for j, b := range keys {
+						if i == j {
+							continue
+						}
+						idx++
+						if !c.Mine(idx) {
+							continue
+						}
+						freshCaches(cfg)
+						oneShard("c1", 2, nil)
+						e.Respond = func(oc *env.OriginCall) env.OriginResp {
+							r := env.Cacheable(oc, 100, "")
+							if n := 2000 - len(r.Body); n > 0 && oc.Method != "HEAD" {
+								r.Body = append(r.Body, strings.Repeat("x", n)...)
+							}
+							r.Header.Set("ETag", `"build-20260928"`)
+							r.Header.Set("Last-Modified", "Mon, 28 Sep 2026 00:00:00 GMT")
+							return r
+						}
+						e.Events()
+						for n, k := range []c06Key{a, b, a, b, a} {
+							h := http.Header{}
+							if ae != "" {
+								h.Set("Accept-Encoding", ae)
+							}
+							e.Do(env.Req{Method: k.M, Host: k.H, URI: k.U, Rid: fmt.Sprintf("r%d", n), Header: h})
+						}
+						evs := e.Events()
+						for _, ev := range evs {
+							if ev.Kind == "req-end" && ev.Res != nil {
+								if enc := ev.Res.Header.Get("Content-Encoding"); enc != "" {
+									if dec, err := refDecode(enc, ev.Res.Body); err == nil {
+										ev.Res.Body = dec
+									}
+								}
+							}
+						}
+						an := analyze(evs)
+						st.Execs++
+						st.States += 5
+						st.Transitions += 5
+						st.Nontrivial++
+						v := an.selfCheck()
+						if v == nil {
+							v = an.labelTruth()
+						}
+						if v != nil {
+							c.Violation("pairs-same-validators", v.Sig, fmt.Sprintf("same ETag/Last-Modified/length for every key, client accepts %q, keys %v and %v: %s", ae, a, b, trunc([]byte(v.Msg))), nil, map[string]interface{}{"a": a, "b": b, "accept": ae}, nil)
+						}
+					}
+				}
+			}
+			st.NOutcomes = int(st.Execs)
+		}
 		// URIs that contain another key's URI (after "://", after "?u=", dot segments, parameters): raw request-URIs are the key
 		if c.Want("embedded-uris") {
 			st := c.Stat("embedded-uris", "enumeration")
@@ -443,7 +508,7 @@ func init() {
 		if c.Want("long-keys-badger") && c.Shard == 0 {
 			st := c.Stat("long-keys-badger", "enumeration")
 			lens := []int{200, 990, 1100, 4000, 64900, 64990, 65100, 70000}
-			st.Bounds = fmt.Sprintf("pairs of URIs sharing a prefix of %v bytes and differing in the last byte, and 4 pairs where one URI is a proper prefix of the other, on a real badger store: A, restart, B, A, restart, A, B", lens)
+			st.Bounds = fmt.Sprintf("pairs of URIs sharing a prefix of %v bytes and differing in the last byte, and 4 pairs where one URI is a proper prefix of the other, on a real badger store: A, restart, B, A, restart, A, B (pairs differing in the last byte: then 301 s later A, B, A, B)", lens)
 			dir := filepath.Join(os.Getenv("PIKEMC_WORK"), fmt.Sprintf("c06-badger-%d", os.Getpid()))
 			if os.Getenv("PIKEMC_WORK") == "" {
 				dir = filepath.Join("/verif/.work", fmt.Sprintf("c06-badger-%d", os.Getpid()))
@@ -458,9 +523,14 @@ func init() {
 				e.Respond = func(oc *env.OriginCall) env.OriginResp { return env.Cacheable(oc, 100, "p") }
 				e.Events()
 				rid := 0
-				for _, u := range []string{a, "restart", b, a, "restart", a, b} {
+				vtime.Set(vtime.Base)
+				for _, u := range []string{a, "restart", b, a, "restart", a, b, "later", a, b, a, b} {
 					if u == "restart" {
 						freshCaches(bcfg)
+						continue
+					}
+					if u == "later" { // beyond the lifetime and the hit-for-pass period
+						vtime.Add(301)
 						continue
 					}
 					e.Do(env.Req{URI: u, Rid: fmt.Sprintf("r%d", rid)})
